@@ -17,10 +17,11 @@
 #include <string.h>
 #include <librfn/wavheader.h>
 
-enum { F_TRUNCATE, F_BIT_FLIP, F_HOSTILE_SIZE, F_MAGIC, F_TAIL_GARBAGE, F_RANDOM_BYTES, F_ALLOC_FAIL };
+enum { F_TRUNCATE, F_BIT_FLIP, F_HOSTILE_SIZE, F_MAGIC, F_TAIL_GARBAGE, F_RANDOM_BYTES, F_ALLOC_FAIL,
+       F_FIELD_EXTREMES };
 static const char *const fault_names[] = { "stream_truncate", "bit_flip", "hostile_size_field",
 					   "magic_corrupt", "tail_garbage", "random_bytes",
-					   "alloc_fail", NULL };
+					   "alloc_fail", "field_extremes", NULL };
 enum { P_ACCEPTED, P_INCOMPLETE, P_REJECTED, P_ACCEPTED_MUTATED, P_PREFIXES, P_FACT, P_EXTENSIBLE,
        P_PADDED_FMT, P_ZERO_BLOCK_ALIGN, P_INCREMENTAL_STEPS, P_CONSISTENT_CHECKED, P_LEN_ZERO };
 static const char *const probe_names[] = {
@@ -196,8 +197,24 @@ static void run(void)
 		uint32_t want_mut = sim_choose(3) ? sim_choose(4) : 0;
 		for (uint32_t m = 0; m < want_mut; m++) {
 			sim_seg();
-			uint32_t kind = sim_choose(3);
-			if (kind == 0) {
+			uint32_t kind = sim_choose(4);
+			if (kind == 3) {
+				/* every numeric field of the fmt chunk and the data size take extreme values
+				 * (sizes that decide the structure are left to the hostile-size mutation) */
+				static const uint32_t ext[] = { 0, 1, 2, 0x7fff, 0x8000, 0xffff, 0x10000, 1000, 65535,
+					0x7fffffffu, 0x80000000u, 0x80000001u, 0xc0000000u, 0xc4653600u, 0xfffffffeu, 0xffffffffu };
+				const uint32_t ne = sizeof(ext) / sizeof(ext[0]);
+				put16(in + 20, sim_choose(3) ? ext[sim_choose(ne)] : get16(in + 20));	/* format tag */
+				put16(in + 22, ext[sim_choose(ne)]);	/* channels */
+				put32(in + 24, ext[sim_choose(ne)]);	/* sample rate */
+				put32(in + 28, ext[sim_choose(ne)]);	/* byte rate */
+				put16(in + 32, ext[sim_choose(6)]);	/* block align */
+				put16(in + 34, ext[sim_choose(ne)]);	/* bits per sample */
+				put32(in + off_data_size, ext[sim_choose(ne)]);
+				if (sim_choose(2))
+					put32(in + 4, 0xffffffffu);	/* keep the RIFF size plausible */
+				sim_fault(F_FIELD_EXTREMES);
+			} else if (kind == 0) {
 				static const uint32_t hostile[] = { 0, 1, 15, 16, 17, 18, 19, 20, 38, 39, 40, 41, 42,
 					0x7fffffffu, 0x80000000u, 0xffffffe3u, 0xffffffe4u, 0xffffffe5u,
 					0xfffffff0u, 0xfffffffeu, 0xffffffffu, 0x10000u, 0x80000012u };
